@@ -1,7 +1,7 @@
 /-
   C12 — attractor and steady-state shortcuts agree with generic evaluation everywhere.
 -/
-import HctlProofs.Lemmas.Laws
+import HctlProofs.Lemmas.Reach
 namespace Hctl.C12
 open Hctl Kripke
 
@@ -111,5 +111,25 @@ theorem attractor_shortcut_correct {U0 st U : CSet} {d : Nat} (hU : UnitOK E U0 
     have := (EUi_R_iff_step E.G p.c _ _ u).mp ((ef_path_iff E.G p.c (fun t => p.s = t) u).mp hpath)
     obtain ⟨w, hw, rfl⟩ := (EUi_iff_starIn _ _ _).mp this
     exact hnb hw
+
+omit hA in
+/-- The attractor shortcut, for the model's own attractor computation (breadth-first reachability, proved to
+meet the terminal-SCC specification in `Lemmas/Reach.lean`): no hypothesis about the computation is left. -/
+theorem attractor_shortcut_model {U0 st U : CSet} {d : Nat} (hU : UnitOK E U0 st U d) (x : Name)
+    (hx : varId x = d) (hdk : d < E.G.k) (K : SemCtx) :
+    Sem E (Ops.attractorsOf E U) U (sat E.G K (.hyb .bind x none (.un .ag (.un .ef (.atom (.var x)))))) :=
+  attractor_shortcut_correct hE hG hU x hx hdk K _ (attrSpec hE hG U)
+
+omit hA in
+/-- … and therefore equals generic evaluation of `!{x}: AG EF {x}` on the universe. -/
+theorem attractor_shortcut_eq_generic {U0 st U : CSet} {d : Nat} (hU : UnitOK E U0 st U d) (x : Name)
+    (hx : varId x = d) (hdk : d < E.G.k) (K : SemCtx) (hK : CtxOK E K) :
+    EqOn E.pts (Ops.attractorsOf E U)
+      (Eval.evalPure E st K.wild K.dom (.hyb .bind x none (.un .ag (.un .ef (.atom (.var x))))) U) := by
+  intro p hp
+  have h1 := attractor_shortcut_model hE hG hU x hx hdk K p hp
+  have h2 := evalPure_correct hE hG K hK U0 st (.hyb .bind x none (.un .ag (.un .ef (.atom (.var x))))) d U
+    (by simp [WellNamed, hx, hdk]) (by simp [DomsIn]) hU p hp
+  exact Bool.eq_iff_iff.mpr (h1.trans h2.symm)
 
 end Hctl.C12
